@@ -32,6 +32,9 @@ def generate(rng, tier):
         rng.shuffle(obs)
         lo = 1 if method == 'poisson_cv' else -24
         rows = [[rng.randint(lo, 40) for _ in range(P)] for _ in obs]
+        intd = rng.random() < 0.25      # integer-valued measurements stored with an integer dtype (spike counts): seeded change C02-m8
+        if intd:
+            rows = [[8 * rng.randint(max(lo, -5) if lo < 0 else 1, 9) for _ in range(P)] for _ in obs]
         conds = [o[0] for o in obs]
         if default:
             seen = {}
@@ -48,7 +51,7 @@ def generate(rng, tier):
                         remove_mean=(rng.random() < 0.4 and method == 'crossnobis'),
                         pl=rng.choice([1, 2, 0.5]), pw=rng.choice([0.1, 0.25]),
                         condtype=rng.choice(['int', 'str']), foldtype=rng.choice(['int', 'str']),
-                        desctype=rng.choice(['list', 'array'])))
+                        desctype=rng.choice(['list', 'array']), intdtype=intd))
     return out
 
 
@@ -67,6 +70,8 @@ def fval(c, f):
 def run(c):
     import rsatoolbox
     meas = np.array(c['rows8'], dtype=float) / 8
+    if c.get('intdtype'):
+        meas = meas.astype(np.int64)
     conds = [cval(c, l) for l in c['conds']]
     obs = {'cond': conds if c['desctype'] == 'list' else np.array(conds)}
     if not c['default']:
